@@ -1458,7 +1458,7 @@ package bigbuff
 
 //@ func (*Exclusive).call
 //@   props C09 C10
-//@   lock-transfer
+//@   lock-transfer exclusiveItem.mutex
 //@   panics nilrecv : e == nil
 //@   panics nilwork : c.work == nil
 //@   ensures attach : spawned("(*Exclusive).call$1") == 1 ==> item != nil && has(e.work, c.key) && e.work[c.key] == item && item.count >= 1 && item.work == c.work && item.wait == c.wait
